@@ -141,7 +141,7 @@ func checkC19(w *World, r *Report) {
 		}
 	}
 	// ---- f. log handler: readers → response fields; membership
-	if h := w.FuncByName("server", "(*server).jobLogs"); h != nil {
+	if h := w.FuncByRole("server", "(*server).jobLogs", func(f *ssa.Function) bool { return len(findCalls(f, func(n string, c *ssa.CallCommon) bool { return c.IsInvoke() && c.Method.Name() == "Reader" })) > 0 }); h != nil {
 		hname := FuncName(h)
 		readers := findCalls(h, func(n string, c *ssa.CallCommon) bool { return c.IsInvoke() && c.Method.Name() == "Reader" })
 		var existsIf *ifFact
@@ -215,7 +215,7 @@ func checkC19(w *World, r *Report) {
 	// ---- KEY: one path function uses all three components
 	fs := w.NamedType("taskctl", "FileOutputStore")
 	if fs != nil {
-		bp := w.FuncByName("taskctl", "(*FileOutputStore).buildPath")
+		bp := w.FuncByRole("taskctl", "(*FileOutputStore).buildPath", func(f *ssa.Function) bool { return recvIs(f, "FileOutputStore") && sigHas(f, []string{"string", "string", "string"}, []string{"string"}) })
 		if bp == nil {
 			r.Viol("key.path-function", "FileOutputStore: path function", "-", "no buildPath method: writer and reader cannot be shown to agree")
 		} else {
